@@ -185,6 +185,31 @@ package chain
 //@   loop 3 invariant forall k string :: $nonce[k] == old($blockNonce[k]) && $blockNonce[k] == old($blockNonce[k]) && $blockBal[k] == old($blockBal[k])
 //@   loop 5 invariant forall k string :: $nonce[k] == (k == txn.ClientID ? old($blockNonce[k]) + 1 : old($blockNonce[k])) && $blockNonce[k] == old($blockNonce[k]) && $blockBal[k] == old($blockBal[k])
 
+// ---------------------------------------------------------------- LFB tickets (C41)
+//   curMB(c)     the chain's current magic block
+//   $sigChecked  outcome of the last Client.Verify call (signature valid, no error)
+//@ uf curMB (Ptr) Ptr
+//@ ghost $sigChecked Bool
+//@ func (*Chain).GetCurrentMagicBlock
+//@   trusted
+//@   ensures result == curMB(c) && result != nil && result.Sharders != nil && result.Miners != nil
+//@   modifies nothing
+//@ assume func 0chain.net/chaincore/client.(*Client).Verify
+//@   params c signature hash
+//@   modifies $sigChecked
+//@   ensures $sigChecked == (result0 && result1 == nil)
+//@ func (*LFBTicket).hashData
+//@   trusted
+//@   modifies nothing
+
+// A received LFB ticket is adopted only if its signer is a sharder of the current magic block and
+// its signature over the ticket hash verifies under that node's key.
+//@ func (*Chain).verifyLFBTicket
+//@   prop C41
+//@   requires c != nil && lfbt != nil
+//@   ensures[signer-is-current-sharder] result ==> lfbt.SharderID in asptr(curMB(c), block.MagicBlock).Sharders.NodesMap
+//@   ensures[signature-verified] result ==> $sigChecked
+
 //@ func (*Chain).GetMagicBlockNoOffset
 //@   prop C40
 //@   requires c != nil && rheld(c.mbMutex) == 0
